@@ -363,6 +363,40 @@ class Driver:
         self.drop_temps(t)
         return {'yields': yields, 'script': sobs[0]}
 
+    def _loop_fold(self, spec, noderef, t):
+        """`node.iter_x().for_each(|e| { ..script at the k-th element.. })`: internal iteration.  std's for_each is
+        `self.fold((), ..)`; an iterator type of the crate that overrides `fold` is driven through its own fold MIR,
+        otherwise through the default (a next() loop)"""
+        ex = self.ex
+        lst = {'fold_out': 'out', 'fold_in': 'in', 'fold_adj': 'adj'}[spec['kind']]
+        it = self.node_call({'out': 'iter_out', 'in': 'iter_in', 'adj': 'iter'}[lst], [noderef])
+        ity = it.kind.split('::')[-1]
+        yields, sobs, n = [], [None], [0]
+
+        def fn(ex_, acc, e):
+            tr = self.edge_triple(e)
+            ok = self.exists_now('in', tr[1], tr[0], tr[2]) if lst == 'in' else self.exists_now(lst, tr[0], tr[1], tr[2])
+            yields.append(tr + [ok])
+            if n[0] == spec['at']:
+                sobs[0] = self.run_script(spec['script'])
+            n[0] += 1
+            if n[0] > 24:
+                raise Budget('edge loop does not end')
+            ex.drop(e)
+            return acc
+        own = [f for (f, tr, st) in ex.ix.methods.get((self.fl, ity, 'fold'), [])]
+        if len(own) == 1:
+            ex.call_fn(own[0], [it, Agg('tuple', []), PyFn(fn)])
+        else:
+            cell = Cell(it)
+            while True:
+                o = ex.call(f"<{self.fl}::node::{ity}<'_, K, N, E> as Iterator>::next", [Ref(cell)])
+                if o.variant == 0:
+                    break
+                fn(ex, None, o.f[0])
+        self.drop_temps(t)
+        return {'yields': yields, 'script': sobs[0]}
+
     def op_loop(self, spec):
         """a user loop over a node's edges that runs a script of operations before its `at`-th next()"""
         ex = self.ex
@@ -371,6 +405,8 @@ class Driver:
         kind = spec['kind']
         if kind.startswith('collect_'):
             return self._loop_collect(spec, noderef, t)
+        if kind.startswith('fold_'):
+            return self._loop_fold(spec, noderef, t)
         if kind == 'into_iter':
             it = ex.call(f"<&'a {self.NODE}<K, N, E> as IntoIterator>::into_iter", [noderef])
             lst = 'out' if self.directed else 'adj'
